@@ -1,4 +1,6 @@
 import Gallia.Model.ClientConc
+import Gallia.Proofs.Lemmas.ClientMulti
+import Gallia.Gen.C05Locks
 /-
   C05 — Concurrent users of one UDS client never interleave their exchanges.
   Statements are about *every* accepted event trace, i.e. every schedule of any number of tasks.
@@ -7,14 +9,7 @@ namespace Gallia.C05
 open Gallia.ClientConc
 
 theorem accept_append (s : Sys) (a b : List Event) :
-    accept s (a ++ b) = (accept s a).bind fun s' => accept s' b := by
-  induction a generalizing s with
-  | nil => rfl
-  | cons e es ih =>
-    simp only [List.cons_append, accept]
-    cases step s e with
-    | none => rfl
-    | some s' => exact ih s'
+    accept s (a ++ b) = (accept s a).bind fun s' => accept s' b := Gallia.ClientMulti.accept_append s a b
 
 /-- every transport operation in an accepted trace is performed by the task holding the client lock -/
 theorem ops_by_holder (s s' : Sys) (pre post : List Event) (t : Tid) (k : OpKind)
@@ -205,5 +200,307 @@ example : accept Sys.init
 
 /-- ... and a write by a task that does not hold the client is rejected -/
 example : accept Sys.init [.want 1, .got 1, .op 1 .write, .op 2 .write] = none := by decide
+
+/-! ## FIFO fairness -/
+
+/-- strike out the last occurrence -/
+def eraseLast (t : Tid) (l : List Tid) : List Tid := (l.reverse.erase t).reverse
+
+/-- the queue as the property describes it, written without reference to the lock: tasks in the order in which they
+    asked for the client; a task that is cancelled while it waits is struck out (its latest request) -/
+def arrivalsOf : List Event → List Tid → List Tid
+  | [], q => q
+  | .want t :: es, q => arrivalsOf es (q ++ [t])
+  | .unwait t :: es, q => arrivalsOf es (eraseLast t q)
+  | _ :: es, q => arrivalsOf es q
+
+/-- the tasks that obtained the client, in that order -/
+def grantsOf : List Event → List Tid
+  | [] => []
+  | .got t :: es => t :: grantsOf es
+  | _ :: es => grantsOf es
+
+theorem eraseLast_append_mem (g w : List Tid) (t : Tid) (hm : t ∈ w) (hn : w.Nodup) :
+    eraseLast t (g ++ w) = g ++ w.filter (· ≠ t) := by
+  unfold eraseLast
+  have hr : w.reverse.Nodup := by
+    unfold List.Nodup at hn ⊢
+    rw [List.pairwise_reverse]
+    exact hn.imp (fun h => h.symm)
+  rw [List.reverse_append, List.erase_append_left _ (by simpa using hm), List.reverse_append, List.reverse_reverse,
+    hr.erase_eq_filter, List.filter_reverse, List.reverse_reverse]
+  congr 1
+  apply List.filter_congr
+  intro x _; by_cases hx : x = t <;> simp [hx]
+
+theorem fifo_gen (evs : List Event) (s0 s : Sys) (g : List Tid) (hi : Inv s0) (h : accept s0 evs = some s) :
+    g ++ grantsOf evs ++ s.waiters = arrivalsOf evs (g ++ s0.waiters) := by
+  induction evs generalizing s0 g with
+  | nil => simp only [accept] at h; injection h with h; subst h; simp [grantsOf, arrivalsOf]
+  | cons e es ih =>
+    simp only [accept] at h
+    cases he : step s0 e with
+    | none => rw [he] at h; cases h
+    | some s1 =>
+      rw [he] at h
+      have hi1 := inv_step s0 s1 e hi he
+      cases e with
+      | want t =>
+        have := ih s1 g hi1 h
+        simp only [step] at he; split at he
+        · cases he
+        · injection he with he; subst he
+          simpa [grantsOf, arrivalsOf, List.append_assoc] using this
+      | got t =>
+        have := ih s1 (g ++ [t]) hi1 h
+        simp only [step] at he; split at he
+        · rename_i w ws _ hw
+          split at he
+          · rename_i hwt; subst hwt
+            injection he with he; subst he
+            simpa [grantsOf, arrivalsOf, List.append_assoc, hw] using this
+          · cases he
+        · cases he
+      | op t k =>
+        have := ih s1 g hi1 h
+        simp only [step] at he; split at he
+        · injection he with he; subst he; simpa [grantsOf, arrivalsOf] using this
+        · cases he
+      | rel t =>
+        have := ih s1 g hi1 h
+        simp only [step] at he; split at he
+        · injection he with he; subst he; simpa [grantsOf, arrivalsOf] using this
+        · cases he
+      | unwait t =>
+        have := ih s1 g hi1 h
+        simp only [step] at he; split at he
+        · rename_i hm
+          injection he with he; subst he
+          simp only [grantsOf, arrivalsOf]
+          rw [eraseLast_append_mem g s0.waiters t hm hi.1]
+          exact this
+        · cases he
+      | ended t =>
+        have := ih s1 g hi1 h
+        simp only [step] at he; split at he
+        · cases he
+        · injection he with he; subst he; simpa [grantsOf, arrivalsOf] using this
+
+/-- **fifo_fairness** (acceptor level): in every accepted trace the tasks that obtained the client so far, followed by
+    those still waiting, are exactly the arrivals in arrival order with the cancelled waits struck out: grant order =
+    arrival order among uncancelled waiters, nobody overtakes and nobody is skipped -/
+theorem fifo_fairness_trace (evs : List Event) (s : Sys) (h : accept Sys.init evs = some s) :
+    grantsOf evs ++ s.waiters = arrivalsOf evs [] := by
+  have := fifo_gen evs Sys.init s [] ⟨by simp [Sys.init], by intro t ht; cases ht⟩ h
+  simpa [Sys.init] using this
+
+example : grantsOf [.want 1, .got 1, .want 2, .want 3, .want 4, .unwait 3, .rel 1, .got 2] = [1, 2] ∧
+    arrivalsOf [.want 1, .got 1, .want 2, .want 3, .want 4, .unwait 3, .rel 1, .got 2] [] = [1, 2, 4] := by decide
+
+/-! ## the multi-task operational model (`Model/ClientMulti.lean`)
+
+  `P : Progs` gives every task its program, `WF P` says every round is lock-bracketed (`real_wf`: the programs of gallia's
+  callers are), `born` says which tasks exist from the start, `cs : List Choice` is an arbitrary schedule (which task runs,
+  where a CancelledError is delivered, which message the network delivers when). -/
+
+section Multi
+open Gallia.ClientMulti hiding Inv accept_append
+
+/-- **refinement**: whatever the scheduler does, the events of the operational model (tasks running their programs
+    against an owner-less lock) form a trace the lock-discipline acceptor accepts, ending in the model's lock state -
+    so every theorem about accepted traces above holds for the runs of the operational model -/
+theorem events_accepted (P : Progs) (hP : WF P) (born : Tid → Bool) (cs : List Choice) (s : MSys)
+    (h : mrun P (MSys.init P born) cs = some s) : accept Sys.init s.events = some s.lock :=
+  (rinv_run P hP cs _ s (rinv_init P hP born) h).2
+
+/-- **wire_is_serial**: for every schedule and every script, between the moment task `t` obtains the client and its
+    release - first transmission, responsePending polls, backoff, reconnect, retransmissions - every write / read /
+    reconnect on the wire is `t`'s -/
+theorem wire_is_serial (P : Progs) (hP : WF P) (born : Tid → Bool) (cs : List Choice) (s : MSys)
+    (h : mrun P (MSys.init P born) cs = some s) (pre mid post : List Event) (t u : Tid) (k : OpKind)
+    (he : s.events = pre ++ Event.got t :: (mid ++ Event.op u k :: post)) (hno : ∀ e ∈ mid, e ≠ Event.rel t) : u = t :=
+  exclusive Sys.init s.lock pre mid post t u k (by rw [← he]; exact events_accepted P hP born cs s h) hno
+
+/-- … and at the level of single steps: a task whose next await point touches the transport holds the lock, and
+    nobody else does -/
+theorem wire_op_by_holder (P : Progs) (hP : WF P) (born : Tid → Bool) (cs : List Choice) (s : MSys)
+    (h : mrun P (MSys.init P born) cs = some s) (t : Tid) (a : Act) (rest : List Act)
+    (hc : (s.tasks t).phase = .idle ∨ (s.tasks t).phase = .holding) (htodo : (s.tasks t).todo = a :: rest)
+    (hw : a.isWire = true) : s.lock.holder = some t ∧ ∀ u, u ≠ t → (s.tasks u).phase ≠ .holding := by
+  have hi := (rinv_run P hP cs _ s (rinv_init P hP born) h).1
+  obtain ⟨wi, _⟩ := phaseOk_cons (hi.ok t) htodo
+  have hh : s.lock.holder = some t := by
+    rcases hc with hc | hc
+    · have := wi hc
+      cases a with
+      | io o => simp [wfIn, Act.isWire] at this hw; rw [Option.isSome_iff_ne_none] at hw; exact absurd this.1 hw
+      | _ => simp [Act.isWire] at hw
+    · exact (hi.hold t).mp hc
+  refine ⟨hh, ?_⟩
+  intro u hu e
+  have := (hi.hold u).mp e
+  rw [hh] at this; injection this with this; exact hu this.symm
+
+/-- **release_only_by_holder** (the owner-less `asyncio.Lock.release()`): the step function lets ANY task release the
+    lock; in every reachable state a task whose next await point is `release` is the holder -/
+theorem release_only_by_holder (P : Progs) (hP : WF P) (born : Tid → Bool) (cs : List Choice) (s : MSys)
+    (h : mrun P (MSys.init P born) cs = some s) (t : Tid) (rest : List Act)
+    (hc : (s.tasks t).phase = .idle ∨ (s.tasks t).phase = .holding) (htodo : (s.tasks t).todo = .release :: rest) :
+    s.lock.holder = some t := by
+  have hi := (rinv_run P hP cs _ s (rinv_init P hP born) h).1
+  obtain ⟨wi, _⟩ := phaseOk_cons (hi.ok t) htodo
+  rcases hc with hc | hc
+  · have := wi hc; simp [wfIn] at this
+  · exact (hi.hold t).mp hc
+
+/-- **fifo_fairness**: in every run of the operational model, grant order = arrival order among uncancelled waiters -/
+theorem fifo_fairness (P : Progs) (hP : WF P) (born : Tid → Bool) (cs : List Choice) (s : MSys)
+    (h : mrun P (MSys.init P born) cs = some s) : grantsOf s.events ++ s.lock.waiters = arrivalsOf s.events [] :=
+  fifo_fairness_trace s.events s.lock (events_accepted P hP born cs s h)
+
+/-- **cancel_safe**: cancelling a task that WAITS for the client neither releases it nor steals it: the holder stays
+    the holder, the other waiters keep their order, nobody else's state changes, and the cancelled task never holds the
+    client afterwards, whatever the rest of the schedule -/
+theorem cancel_safe (P : Progs) (hP : WF P) (born : Tid → Bool) (cs : List Choice) (s : MSys)
+    (h : mrun P (MSys.init P born) cs = some s) (t : Tid) (hp : (s.tasks t).phase = .waiting) :
+    ∃ s', mstep P s (.cancel t) = some s' ∧ s'.lock.holder = s.lock.holder ∧
+      s'.lock.waiters = s.lock.waiters.filter (· ≠ t) ∧ (∀ u, u ≠ t → s'.tasks u = s.tasks u) ∧ s'.inbox = s.inbox ∧
+      ∀ cs' s'', mrun P s' cs' = some s'' → s''.lock.holder ≠ some t ∧ t ∉ s''.lock.waiters := by
+  obtain ⟨s', hm, h1, h2, h3, h4, h5, _⟩ := cancel_waiting_step P s t hp
+  refine ⟨s', hm, h1, h2, h4, h5, ?_⟩
+  intro cs' s'' hr
+  have hri := rinv_run P hP cs _ s (rinv_init P hP born) h
+  have hi'' := (rinv_run P hP cs' s' s'' (rinv_step P hP s s' _ hri hm) hr).1
+  have hd : (s''.tasks t).phase = .done := by rw [done_forever P cs' s' s'' hr t h3]; exact h3
+  constructor
+  · intro e; have := (hi''.hold t).mpr e; rw [hd] at this; cases this
+  · intro e; have := (hi''.wait t).mpr e; rw [hd] at this; cases this
+
+/-- **progress_multi**: in every reachable state
+    (a) the holder may be cancelled at whatever await point it is suspended in (write, read, responsePending poll,
+        backoff sleep, reconnect): the client is free at once and the queue is untouched;
+    (b) a holder that ends its exchange - reply, error or exception: its next await point is `release` - frees the client;
+    (c) no deadlock: whenever the client is free and somebody waits, the longest waiter is granted the client by its next
+        step (or, if it is a worker being stopped, its cancellation removes it and the next one is at the head);
+    (d) hence a leaving holder hands over to the longest waiter -/
+theorem progress_multi (P : Progs) (hP : WF P) (born : Tid → Bool) (cs : List Choice) (s : MSys)
+    (h : mrun P (MSys.init P born) cs = some s) :
+    (∀ t, s.lock.holder = some t →
+      ∃ s', mstep P s (.cancel t) = some s' ∧ s'.lock.holder = none ∧ s'.lock.waiters = s.lock.waiters ∧
+        (∀ u, u ≠ t → s'.tasks u = s.tasks u)) ∧
+    (∀ t rest, s.lock.holder = some t → (s.tasks t).stopReq = false → (s.tasks t).todo = .release :: rest →
+      ∃ s', mstep P s (.run t) = some s' ∧ s'.lock.holder = none ∧ s'.lock.waiters = s.lock.waiters ∧
+        (∀ u, u ≠ t → s'.tasks u = s.tasks u)) ∧
+    (∀ w ws, s.lock.holder = none → s.lock.waiters = w :: ws →
+      ((s.tasks w).stopReq = false → ∃ s', mstep P s (.run w) = some s' ∧ s'.lock = { holder := some w, waiters := ws }) ∧
+      ((s.tasks w).stopReq = true → ∃ s', mstep P s (.cancel w) = some s' ∧ s'.lock = { holder := none, waiters := ws })) := by
+  have hi := (rinv_run P hP cs _ s (rinv_init P hP born) h).1
+  refine ⟨?_, ?_, ?_⟩
+  · intro t ht
+    obtain ⟨s', hm, h1, h2, _, h4, _⟩ := cancel_holding_step P s t ((hi.hold t).mpr ht)
+    exact ⟨s', hm, h1, h2, h4⟩
+  · intro t rest ht hs htodo
+    exact release_step P s t t rest (.inr ((hi.hold t).mpr ht)) hs htodo ht
+  · intro w ws hh hw
+    have hpw : (s.tasks w).phase = .waiting := (hi.wait w).mpr (by rw [hw]; simp)
+    constructor
+    · intro hs
+      obtain ⟨s', hm, h1, _⟩ := grant_step P s w ws hpw hs hh hw
+      exact ⟨s', hm, h1⟩
+    · intro _
+      obtain ⟨s', hm, h1, h2, _⟩ := cancel_waiting_step P s w hpw
+      refine ⟨s', hm, ?_⟩
+      have hnd := hi.nodup
+      rw [hw] at hnd
+      have hnot : w ∉ ws := (List.nodup_cons.mp hnd).1
+      have : s'.lock.waiters = ws := by
+        rw [h2, hw]
+        simp only [ne_eq, decide_not, List.filter_cons, decide_true, Bool.not_true, Bool.false_eq_true, if_false]
+        apply List.filter_eq_self.mpr
+        intro a ha; simp; rintro rfl; exact hnot ha
+      cases hl : s'.lock with
+      | mk hd wt => rw [hl] at h1 this; simp at h1 this; rw [h1, hh, this]
+
+/-- a leaving holder hands the client to the longest waiter: cancellation of the holder at any await point followed by
+    the waiter's next step -/
+theorem handover_on_cancel (P : Progs) (hP : WF P) (born : Tid → Bool) (cs : List Choice) (s : MSys)
+    (h : mrun P (MSys.init P born) cs = some s) (t w : Tid) (ws : List Tid) (ht : s.lock.holder = some t)
+    (hw : s.lock.waiters = w :: ws) (hs : (s.tasks w).stopReq = false) :
+    ∃ s'', mrun P s [.cancel t, .run w] = some s'' ∧ s''.lock = { holder := some w, waiters := ws } := by
+  obtain ⟨s', hm, h1, h2, h3⟩ := (progress_multi P hP born cs s h).1 t ht
+  have hr' : mrun P (MSys.init P born) (cs ++ [.cancel t]) = some s' := by
+    rw [mrun_append, h]; simp [mrun, hm]
+  have hne : w ≠ t := by
+    have hi := (rinv_run P hP cs _ s (rinv_init P hP born) h).1
+    rintro rfl
+    have a := (hi.hold w).mpr ht
+    have b := (hi.wait w).mpr (by rw [hw]; simp)
+    rw [a] at b; cases b
+  obtain ⟨s'', hm2, hl⟩ := ((progress_multi P hP born _ s' hr').2.2 w ws h1 (by rw [h2, hw])).1 (by rw [h3 w hne]; exact hs)
+  exact ⟨s'', by simp [mrun, hm, hm2], hl⟩
+
+/-- **stop_terminates** (`stop_cyclic_tester_present`: `task.cancel()`, `await asyncio.wait([task])`): wherever the
+    worker `w` is - in its interval sleep, waiting for the client, or in the middle of its exchange holding the client -
+    the stopping task's `cancel()` step is enabled; from then on the worker performs no step of its own; the delivery of the
+    cancellation is enabled and leaves the worker ended, neither holding nor waiting for the client (a client it held is
+    free, the queue is otherwise untouched); after that the `wait` of the stopping task is enabled.  A worker that has
+    already ended makes both steps of the stopping task enabled at once. -/
+theorem stop_terminates (P : Progs) (hP : WF P) (born : Tid → Bool) (cs : List Choice) (s : MSys)
+    (h : mrun P (MSys.init P born) cs = some s) (u w : Tid) (rest : List Act) (hne : w ≠ u)
+    (hp : (s.tasks u).phase = .idle) (hs : (s.tasks u).stopReq = false)
+    (htodo : (s.tasks u).todo = .stop w :: .join w :: rest) :
+    ∃ s1, mstep P s (.run u) = some s1 ∧ s1.lock = s.lock ∧
+      ((s.tasks w).phase = .done → ∃ s3, mstep P s1 (.run u) = some s3 ∧ s3.lock = s.lock) ∧
+      ((s.tasks w).phase ≠ .done →
+        mstep P s1 (.run w) = none ∧
+        ∃ s2, mstep P s1 (.cancel w) = some s2 ∧ (s2.tasks w).phase = .done ∧
+          s2.lock.holder ≠ some w ∧ w ∉ s2.lock.waiters ∧
+          (∀ x, x ≠ w → s.lock.holder = some x → s2.lock.holder = some x) ∧
+          (∀ cs' s'', mrun P s2 cs' = some s'' → s''.log.filter (·.1 == w) = s2.log.filter (·.1 == w)) ∧
+          ∃ s3, mstep P s2 (.run u) = some s3 ∧ s3.lock = s2.lock) := by
+  obtain ⟨s1, hm1, hl1, ht1, hp1, hs1, hnd, hd⟩ := stop_step P s u w rest hne hp hs htodo
+  refine ⟨s1, hm1, hl1, ?_, ?_⟩
+  · intro hdone
+    obtain ⟨s3, hm3, hl3⟩ := join_step P s1 u w rest hp1 hs1 ht1 (by rw [hd hdone]; exact hdone)
+    exact ⟨s3, hm3, by rw [hl3, hl1]⟩
+  · intro hnot
+    obtain ⟨hsr, hph⟩ := hnd hnot
+    refine ⟨stopped_silent P s1 w hsr, ?_⟩
+    have hri1 := rinv_step P hP s s1 _ (rinv_run P hP cs _ s (rinv_init P hP born) h) hm1
+    have hi1 := hri1.1
+    -- the delivery, by the phase the worker is in
+    have hcancel : ∃ s2, mstep P s1 (.cancel w) = some s2 ∧ (s2.tasks w).phase = .done ∧
+        (∀ x, x ≠ w → s2.tasks x = s1.tasks x) ∧ (∀ x, x ≠ w → s1.lock.holder = some x → s2.lock.holder = some x) ∧
+        s2.log = s1.log := by
+      cases hpw : (s1.tasks w).phase with
+      | done => rw [hph] at hpw; exact absurd hpw hnot
+      | waiting =>
+        obtain ⟨s2, a, b, _, d, e, _, g⟩ := cancel_waiting_step P s1 w hpw
+        exact ⟨s2, a, d, e, fun x _ hx => by rw [b]; exact hx, g⟩
+      | holding =>
+        obtain ⟨s2, a, _, _, d, e, _, g⟩ := cancel_holding_step P s1 w hpw
+        refine ⟨s2, a, d, e, ?_, g⟩
+        intro x hx hh
+        have := (hi1.hold w).mp hpw
+        rw [this] at hh; injection hh with hh; exact absurd hh.symm hx
+      | idle =>
+        obtain ⟨s2, a, b, d, e, _, g⟩ := cancel_out_step P s1 w (.inl hpw)
+        exact ⟨s2, a, d, e, fun x _ hx => by rw [b]; exact hx, g⟩
+      | unborn =>
+        obtain ⟨s2, a, b, d, e, _, g⟩ := cancel_out_step P s1 w (.inr hpw)
+        exact ⟨s2, a, d, e, fun x _ hx => by rw [b]; exact hx, g⟩
+    obtain ⟨s2, hm2, hd2, hfr, hkeep, _⟩ := hcancel
+    have hri2 := rinv_step P hP s1 s2 _ hri1 hm2
+    have hi2 := hri2.1
+    refine ⟨s2, hm2, hd2, ?_, ?_, ?_, ?_, ?_⟩
+    · intro e; have := (hi2.hold w).mpr e; rw [hd2] at this; cases this
+    · intro e; have := (hi2.wait w).mpr e; rw [hd2] at this; cases this
+    · intro x hx hh; exact hkeep x hx (by rw [hl1]; exact hh)
+    · intro cs' s'' hr
+      exact ended_task_is_silent P cs' s2 s'' hr w hd2
+    · have hu2 : s2.tasks u = s1.tasks u := hfr u (fun e => hne e.symm)
+      exact join_step P s2 u w rest (by rw [hu2]; exact hp1) (by rw [hu2]; exact hs1) (by rw [hu2]; exact ht1) hd2
+
+end Multi
 
 end Gallia.C05
